@@ -170,6 +170,14 @@ Lemma ecmp_unit : ecmp_ok e_unit.
 Proof. intros c Hc. inversion Hc; subst. apply unit_cmp_total. Qed.
 Lemma ecmp_f64 : ecmp_ok e_f64.
 Proof. intros c Hc. discriminate. Qed.
+Lemma ecmp_bits bits : ecmp_ok (e_bits bits).
+Proof. intros c Hc. discriminate. Qed.
+Lemma ecmp_f32 : ecmp_ok e_f32.
+Proof. intros c Hc. discriminate. Qed.
+Lemma ecmp_bool : ecmp_ok e_bool.
+Proof. intros c Hc. inversion Hc; subst. apply N_cmp_total. Qed.
+Lemma ecmp_char : ecmp_ok e_char.
+Proof. intros c Hc. inversion Hc; subst. apply N_cmp_total. Qed.
 
 Lemma option_map_some {A B} (f : A -> B) o y : option_map f o = Some y -> exists x, o = Some x /\ y = f x.
 Proof. destruct o as [x|]; cbn; [|discriminate]. intros H. inversion H. eauto. Qed.
@@ -399,10 +407,10 @@ Proof. exact (@mdok_string wf m_codec codec_pair mdok_codec). Qed.
 Ltac mok :=
   repeat first
     [ apply mdok_str_owned | apply mdok_str_codec | apply mok_codec | apply mok_huffman | apply mdok_codec
-    | (apply mok_owned; first [apply ecmp_word | apply ecmp_unit | apply ecmp_f64])
-    | (apply mdok_owned; first [apply ecmp_word | apply ecmp_unit | apply ecmp_f64])
-    | (apply mok_mirror; first [apply ecmp_word | apply ecmp_unit | apply ecmp_f64])
-    | (apply mok_vec; first [apply ecmp_word | apply ecmp_unit | apply ecmp_f64])
+    | (apply mok_owned; first [apply ecmp_word | apply ecmp_unit | apply ecmp_f64 | apply ecmp_bits | apply ecmp_f32 | apply ecmp_bool | apply ecmp_char])
+    | (apply mdok_owned; first [apply ecmp_word | apply ecmp_unit | apply ecmp_f64 | apply ecmp_bits | apply ecmp_f32 | apply ecmp_bool | apply ecmp_char])
+    | (apply mok_mirror; first [apply ecmp_word | apply ecmp_unit | apply ecmp_f64 | apply ecmp_bits | apply ecmp_f32 | apply ecmp_bool | apply ecmp_char])
+    | (apply mok_vec; first [apply ecmp_word | apply ecmp_unit | apply ecmp_f64 | apply ecmp_bits | apply ecmp_f32 | apply ecmp_bool | apply ecmp_char])
     | apply mok_string | apply mdok_string | apply mok_option | apply mok_result | apply mok_tuple2
     | apply mok_slice_vec | apply mdok_slice_vec | apply mok_slice | apply mdok_slice
     | apply mok_columns | apply mok_consec
@@ -437,6 +445,14 @@ Proof. intros x y H. cbn in H. inversion H. reflexivity. Qed.
 Lemma eto_unit : eto_inj e_unit.
 Proof. intros [] [] _. reflexivity. Qed.
 Lemma eto_f64 : eto_inj e_f64.
+Proof. intros x y H. cbn in H. inversion H. reflexivity. Qed.
+Lemma eto_bits bits : eto_inj (e_bits bits).
+Proof. intros x y H. cbn in H. inversion H. reflexivity. Qed.
+Lemma eto_f32 : eto_inj e_f32.
+Proof. intros x y H. cbn in H. inversion H. reflexivity. Qed.
+Lemma eto_bool : eto_inj e_bool.
+Proof. intros x y H. cbn in H. inversion H. reflexivity. Qed.
+Lemma eto_char : eto_inj e_char.
 Proof. intros x y H. cbn in H. inversion H. reflexivity. Qed.
 
 Lemma sok_owned E : eto_inj E -> SOK (m_owned E).
@@ -491,9 +507,9 @@ Proof. intros S HS. discriminate HS. Qed.
 Ltac sok :=
   repeat first
     [ apply sok_codec | apply sok_huffman
-    | (apply sok_owned; first [apply eto_word | apply eto_unit | apply eto_f64])
-    | (apply sok_mirror; first [apply eto_word | apply eto_unit | apply eto_f64])
-    | (apply sok_vec; first [apply eto_word | apply eto_unit | apply eto_f64])
+    | (apply sok_owned; first [apply eto_word | apply eto_unit | apply eto_f64 | apply eto_bits | apply eto_f32 | apply eto_bool | apply eto_char])
+    | (apply sok_mirror; first [apply eto_word | apply eto_unit | apply eto_f64 | apply eto_bits | apply eto_f32 | apply eto_bool | apply eto_char])
+    | (apply sok_vec; first [apply eto_word | apply eto_unit | apply eto_f64 | apply eto_bits | apply eto_f32 | apply eto_bool | apply eto_char])
     | apply sok_string | apply sok_option | apply sok_result | apply sok_tuple2
     | apply sok_slice_vec | apply sok_slice | apply sok_columns | apply sok_consec | apply sok_collapse
     | apply vec_ic_ser_inj | apply index_list_ser_inj | apply index_optimized_ser_inj | apply ic_nat_ser_inj ].
